@@ -18,7 +18,7 @@ use sip_types::{Code, Headers, Method, Name};
 use std::fmt::Write;
 use std::marker::PhantomData;
 use std::mem::take;
-use std::net::{IpAddr, SocketAddr};
+use std::net::{IpAddr, Ipv6Addr, SocketAddr};
 use std::ops::Index;
 use std::sync::Arc;
 use std::{fmt, io};
@@ -287,7 +287,7 @@ impl Endpoint {
                 if let Some(maddr) = via
                     .params
                     .get_val("maddr")
-                    .and_then(|maddr| maddr.parse::<IpAddr>().ok())
+                    .and_then(|maddr| parse_maddr(maddr))
                 {
                     // TODO maddr default port guessing (currently defaulting to 5060)
                     SocketAddr::new(maddr, via.sent_by.port.unwrap_or(5060))
@@ -499,6 +499,14 @@ impl Endpoint {
 
     pub(crate) fn transports(&self) -> &Transports {
         &self.inner.transports
+    }
+}
+
+/// `maddr` is a `host`: an IPv6 address is written as IPv6reference (`[` IPv6address `]`)
+fn parse_maddr(maddr: &str) -> Option<IpAddr> {
+    match maddr.strip_prefix('[').and_then(|m| m.strip_suffix(']')) {
+        Some(ip6) => ip6.parse::<Ipv6Addr>().ok().map(IpAddr::V6),
+        None => maddr.parse().ok(),
     }
 }
 
